@@ -1435,6 +1435,6 @@ pub fn run(ctx: &Ctx) {
     if !wanted("generated") {
         return;
     }
-    let n = ctx.tier.pick(40_000, 6_000_000);
+    let n = ctx.tier.pick(300_000, 6_000_000);
     run_generated(ctx, "generated", n, case_strategy, |c: &KpCase, case: &mut Case| check(ctx, c, case));
 }
